@@ -201,7 +201,7 @@ def mon_c05(run: Run, p: Problem, kw) -> List[Dict[str, Any]]:
         key = "restart+scaler"
     else:
         key = ""
-    gradient_computed = (r.njev > ng0) or ck is not None
+    gradient_computed = r.njev > 0   # counting the checkpoint's: a restart inherits its gradient
     states = [("result", r)] + [(f"callback state {i}", e["state"]) for i, e in enumerate(run.rec.cb)]
     for name, st in states:
         x = np.asarray(st.x, dtype=float)
@@ -293,4 +293,12 @@ def basic_tags(run: Run, desc, p: Problem) -> List[str]:
         t.append(f"nit<={5 * ((run.result.nit + 4) // 5)}")
     t.append(f"linesearches_failed={sum(1 for e in run.rec.ls if e.get('ret', 0) is None) > 0}")
     t.append(f"pairs_rejected={any(not c['accepted'] for c in run.rec.curv)}")
+    # line searches that end without convergence after at least two trials, with a trial above the start
+    hard = 0
+    for e in run.rec.ls:
+        fs = [c["in"][1] for c in e["dc"][1:]]
+        last_task = e["dc"][-1]["out"][1][:4] if e["dc"] else b""
+        if len(fs) >= 2 and last_task != b"CONV" and any(f > e["f0"] for f in fs):
+            hard += 1
+    t.append(f"ls_unconverged_with_uphill_trial={hard > 0}")
     return t
